@@ -42,7 +42,13 @@ pub fn from_labels(ls: &[Vec<u8>]) -> Vec<u8> {
 pub fn abs_name(rng: &mut Rng) -> Vec<u8> {
     match rng.below(20) {
         0 => vec![0],
-        1 => max_name(rng, 255),
+        1 => {
+            if rng.bool() {
+                max_name(rng, 255)
+            } else {
+                many_labels(rng)
+            }
+        }
         2 => {
             let l = rng.range(200, 254);
             max_name(rng, l)
@@ -68,6 +74,20 @@ pub fn abs_name(rng: &mut Rng) -> Vec<u8> {
             from_labels(&ls)
         }
     }
+}
+
+/// A name with as many labels as a name can have: 127 labels of one octet and the root label (255 octets), or
+/// one or two fewer. Code that keeps per-label bookkeeping in fixed-size storage is sized by this.
+pub fn many_labels(rng: &mut Rng) -> Vec<u8> {
+    let n = *rng.pick(&[127usize, 127, 127, 126, 125]);
+    let c = *rng.pick(b"abXY01");
+    let mut v = Vec::with_capacity(2 * n + 1);
+    for _ in 0..n {
+        v.push(1);
+        v.push(if rng.chance(1, 8) { *rng.pick(b"abXY01-") } else { c });
+    }
+    v.push(0);
+    v
 }
 
 /// A valid absolute name of exactly `len` octets (1 or 3..=255; 2 yields 3).
